@@ -398,12 +398,12 @@ Proof.
 Qed.
 
 (* the witness: results = {}; merged = merge(results); results[s] = analyse(load(s)) (twice);
-   report = render(merged).  Well-formed (acyclic), every other command handles it, but the
-   cached status cannot even build its table *)
+   report = render(merged).  Well-formed (acyclic), every other command handles it; the status cache
+   rejects it (its documented precondition is creation in dependency order) *)
 Definition late_dag : dag :=
   [(1, 10, [3; 5]); (2, 11, []); (3, 12, [2]); (4, 11, []); (5, 12, [4]); (6, 13, [1])]%positive.
 
-Lemma cached_refuted : exists d : dag, wf_dag d /\
+Lemma cached_rejects_late : exists d : dag, wf_dag d /\
   forall st lk, cached_run d None [(st, lk)] = [None] /\ length (status_events d st lk) = length d.
 Proof.
   exists late_dag. split.
